@@ -91,8 +91,7 @@ HARNESS(h_r32_range)
     IN(u64, s0); IN(f32, a); IN(f32, b);
     ASSUME(a <= b && a >= -0x1p60f && b <= 0x1p60f);
     f32 r = w_r32_nextf_range((void*)&s0, a, b);
-    f32 lo = nextafterf(a, -INFINITY), hi = nextafterf(b, INFINITY);
-    f32 slack = (fabsf(a) > fabsf(b) ? fabsf(a) : fabsf(b)) * 0x1p-22f;
+    f32 slack = (fabsf(a) > fabsf(b) ? fabsf(a) : fabsf(b)) * 0x1p-22f + 0x1p-147f;   /* relative rounding, plus a few denormal ulps where the products round in the subnormal range */
     CHECK(r == r && r >= a - slack && r <= b + slack, "nextf(a,b) within the closed interval up to rounding");
     END;
 }
